@@ -56,6 +56,16 @@ CLAIMS = {
                 "MatchesSane, validated at run time); character alignment of regex matches is inherited from the regex engine, not proved.",
         "technique": "Lean 4 proof over executable model + differential correspondence with the Rust implementation",
     },
+    "C12": {
+        "text": "Machine-checked Lean theorems: load_roundtrip, load_total, load_layout, prefix_eq_keys_partial, prefix_sound, "
+                "transform_eq_occurrence, normalize_eq_spec (the property itself: leftmost-longest replacement, everything else unchanged), "
+                "normalize_untouched, normalize_key_then_rest; the pre-repair algorithm is refuted in Lean (old_drops_following_characters). "
+                "Model tied to src/charsmap.rs by differential runs on generated tries and the shipped XLNet map.",
+        "design_ref": "DESIGN.md §6 C12, §7 F4/F14/F16",
+        "note": "Trusted: Lean kernel + {propext, Classical.choice, Quot.sound}; grapheme boundaries are an oracle; equalities with the "
+                "specification assume LeavesInRange (decidable) and NUL-free text.",
+        "technique": "Lean 4 proof over executable model + differential correspondence with the Rust implementation",
+    },
     "C13": {
         "text": "Machine-checked Lean theorems (all sequences, all parameters, no bound) that Strip/Collapse/Pad/Truncate have exactly their "
                 "documented effect and never panic, over a model tied to src/config/processing.rs by differential runs on exhaustive small "
